@@ -5,7 +5,7 @@ use crate::model::runs;
 use crate::props::c07;
 use crate::runner::{from_case, no_panic, CaseInfo, Check, Ctx, Fail, Report, Tier};
 use crate::wire::*;
-use crate::{ensure, ensure_eq};
+use crate::ensure_eq;
 use nexrad_data::result::Error as DataError;
 use nexrad_data::volume::File;
 use proptest::collection::vec;
